@@ -121,6 +121,22 @@ def rule_R06_1(ctx):
                     if some_t is None:
                         some_t = info["otherwise"]
             if some_t is None:
+                # combinator form: `a.checked_add(b).map(Value::Int)
+                # .ok_or_else(|| overflow_error(a, b))`
+                u1 = [u for u in ops.forward_users(f, c)
+                      if (u.res or "").endswith("Option::<T>::map") and len(u.args) > 1
+                      and (mir.op_const(u.args[1]) or {}).get("fn") == VALUE + "::Int"]
+                u2 = []
+                if len(u1) == 1:
+                    u2 = [u for u in ops.forward_users(f, u1[0])
+                          if (u.res or "").split("::")[-1] in ("ok_or_else", "ok_or")]
+                if len(u1) == 1 and len(u2) == 1 \
+                        and (ERR, "IntOverflow") in ops.block_constructs(prog, f, u2[0].bb) \
+                        and not [u for u in ops.forward_users(f, c) if u is not u1[0] and u.bb != u1[0].bb]:
+                    r.inst("%s: %s result wrapped by map(Value::Int), None -> IntOverflow via %s"
+                           % (f.path, names[0], u2[0].res.split("::")[-1]))
+                    r.ok(2)
+                    continue
                 r.fail(key + " result-not-matched",
                        "the Option returned by %s is not matched on" % names[0],
                        where=c.loc)
@@ -353,8 +369,8 @@ def rule_R06_3(ctx):
     bm = _an.binder_module(prog)
     n_bind = sum(len(v) for k, v in by_mod.items() if k.startswith(bm))
     r.require_floor("operator-function call sites in the binder module", n_bind, 1)
-    r.require_floor("operator-function call sites in the evaluator module",
-                    len(by_mod.get("eval", [])), 1)
+    r.require_floor("operator-function call sites outside the binder module (expression evaluation)",
+                    sum(len(v) for k, v in by_mod.items() if not k.startswith(bm)), 1)
     for c in sites:
         g = c.fn
         # find every use of the Continue payload of this call's `?` chain
